@@ -174,6 +174,37 @@ def impl_run(harness, lines, timeout=20.0, env=None, limit_mem=True):
 
 # ----------------------------------------------------------------------------- byte helpers for mutators
 
+def payloads_of(line):
+    """all '=hex' tokens of an input line -> list of (index, bytes)"""
+    f = line.split(' ')
+    return [(i, bytes.fromhex(t[1:])) for i, t in enumerate(f) if t.startswith('=')]
+
+
+def mutate_line(rng, line, n):
+    """n mutants of a (possibly multi-datagram) input line: one datagram mutated at byte level,
+    or datagrams dropped / swapped / duplicated"""
+    f = line.split(' ')
+    ps = payloads_of(line)
+    out = []
+    for _ in range(n):
+        g = list(f)
+        c = rng.randrange(10)
+        if c < 7 or len(ps) < 2:
+            i, b = rng.choice(ps)
+            g[i] = '=' + mutate_bytes(rng, b, 1)[0].hex()
+        elif c == 7:
+            i, _ = rng.choice(ps)
+            del g[i]
+        elif c == 8:
+            (i, _), (j, _) = rng.sample(ps, 2)
+            g[i], g[j] = g[j], g[i]
+        else:
+            i, _ = rng.choice(ps)
+            g.insert(i, g[i])
+        out.append(' '.join(g))
+    return out
+
+
 def payload_of(line):
     """first '=hex' token of an input line -> (index, bytes)"""
     f = line.split(' ')
@@ -386,6 +417,15 @@ def run_streams(chk, prop, streams, matchers):
         else:
             mod = exp
         for i, (a, e, o, m) in enumerate(zip(ins, exp, impl, mod)):
+            if e.endswith('notwf'):
+                # the generator left the theorem's hypothesis at this step of the history:
+                # compare only the steps before it (counted in the distribution)
+                chk.count('notwf:' + st['name'])
+                k = e.count('|')
+                e = ' '.join(e.split(' ')[:-1]).strip()
+                cut = lambda x: ' | '.join(x.split(' | ')[:k]) + (' |' if k else '')
+                o, m = (cut(o), cut(m)) if k else ('', '')
+                e = e if k else ''
             if prop.nontrivial(a, e):
                 chk.nontrivial.add(hashlib.sha1(a.encode()).digest()[:8])
             if m != e:
@@ -394,7 +434,7 @@ def run_streams(chk, prop, streams, matchers):
                                                  what='extracted model disagrees with the specification the theorem equates it with'),
                            matchers)
             if o != e:
-                chk.record('scopeA', dict(concrete=True, stream=st['name'], index=i, input=a, expected=e, impl=o,
+                chk.record('scopeA', dict(concrete=True, stream=st['name'], index=i, input=a, expected=e, impl=o, model=m,
                                           what='implementation differs from the specification on a property-domain input'),
                            matchers)
 
